@@ -217,4 +217,268 @@ theorem specs_loop : ∀ (l : List Tk) (sp : DeclSpec) (isSome : Bool) (saw : Bo
       simp [pDeclSpecsLoop, DeclSkel.bnd, h1, DeclSkel.pur, andM, f1, f2, f3, f4, hfirst, h2, identTypeOf, tokCoord]
       rw [hadd]; simp only [sawAfter, hsaw]; exact h3
 
+/-! ## `_parse_any_declarator`: the look-ahead scan, the reset, the declarator -/
+
+/-- declarators without grouping parentheses -/
+def NoParen : D → Prop
+  | .name _ => True
+  | .paren _ => False
+  | .ptr _ d => NoParen d
+  | .arr d _ => NoParen d
+  | .fn0 d => NoParen d
+
+def dStars : D → List (List Tk)
+  | .ptr st d => st ++ dStars d
+  | .arr d _ => dStars d
+  | .fn0 d => dStars d
+  | _ => []
+
+def dName : D → String
+  | .name x => x
+  | .paren d => dName d
+  | .ptr _ d => dName d
+  | .arr d _ => dName d
+  | .fn0 d => dName d
+
+def dPost : D → List Tk
+  | .arr d dim => dPost d ++ ("LBRACKET", "[") :: (oflat dim ++ [("RBRACKET", "]")])
+  | .fn0 d => dPost d ++ [("LPAREN", "("), ("RPAREN", ")")]
+  | .ptr _ d => dPost d
+  | _ => []
+
+theorem starsFlat_append : ∀ a b : List (List Tk), starsFlat (a ++ b) = starsFlat a ++ starsFlat b
+  | [], b => rfl
+  | q :: a, b => by simp [starsFlat, starsFlat_append a b]
+
+theorem starsNtoks_append : ∀ a b : List (List Tk), starsNtoks (a ++ b) = starsNtoks a + starsNtoks b
+  | [], b => by simp [starsNtoks]
+  | q :: a, b => by simp [starsNtoks, starsNtoks_append a b]; omega
+
+/-- stars and qualifiers, then the name, then the suffixes -/
+theorem flat_noParen {d : D} (hwf : WFD d) (hn : NoParen d) :
+    d.flat = starsFlat (dStars d) ++ ("ID", dName d) :: dPost d := by
+  induction hwf with
+  | name x => rfl
+  | paren d _ _ => exact absurd hn (by simp [NoParen])
+  | ptr stars d _ _ hwd hdir ih =>
+    have := ih hn
+    simp only [D.flat, dStars, dName, dPost, starsFlat_append, this, List.append_assoc]
+  | arr d dim hwd hdir _ ih =>
+    have := ih hn
+    have hst : dStars d = [] ∨ True := .inr trivial
+    simp only [D.flat, dStars, dName, dPost, this, List.append_assoc, List.cons_append]
+  | fn0 d hwd hdir ih =>
+    have := ih hn
+    simp only [D.flat, dStars, dName, dPost, this, List.append_assoc, List.cons_append]
+
+theorem dStars_quals {d : D} (hwf : WFD d) : ∀ q ∈ dStars d, ∀ t ∈ q, t.1 ∈ typeQualifier := by
+  induction hwf with
+  | name x => intro q hq; simp [dStars] at hq
+  | paren d _ _ => intro q hq; simp [dStars] at hq
+  | ptr stars d _ hq' _ _ ih =>
+    intro q hq
+    simp only [dStars, List.mem_append] at hq
+    rcases hq with h | h
+    · exact hq' q h
+    · exact ih q h
+  | arr d dim _ _ _ ih => exact ih
+  | fn0 d _ _ ih => exact ih
+
+/-- `while tok is a type qualifier: advance` of the scan -/
+theorem scanQuals_loop : ∀ (q : List Tk) (s : PState) (rest : List Tk) (F : Nat),
+    (∀ t ∈ q, t.1 ∈ typeQualifier) → (∀ k v r, rest = (k, v) :: r → k ∉ typeQualifier) →
+    SeesT env s (q ++ rest) → q.length + 1 ≤ F →
+    ∃ s', run F .scanQuals s = .ok () s' ∧ SeesT env s' rest ∧ s'.idx = s.idx + q.length
+  | [], s, rest, F, _, hrest, hs, hF => by
+    obtain ⟨G, rfl⟩ : ∃ G, F = G + 1 := ⟨F - 1, by simp at hF; omega⟩
+    have hs0 : SeesT env s rest := by simpa using hs
+    obtain ⟨s1, h1, hs1, hi1, _⟩ := peekType_spec s _ hs0
+    have hset : inSet (rest.head?.map (·.1)) typeQualifier = false := by
+      cases rest with
+      | nil => rfl
+      | cons t r => obtain ⟨k, v⟩ := t; exact not_mem_inSet (hrest k v r rfl)
+    refine ⟨s1, ?_, hs1, by simpa using hi1⟩
+    show pScanQuals (run G) s = _
+    simp [pScanQuals, DeclSkel.bnd, h1, hset, DeclSkel.pur]
+  | (k, v) :: q, s, rest, F, hq, hrest, hs, hF => by
+    obtain ⟨G, rfl⟩ : ∃ G, F = G + 1 := ⟨F - 1, by simp at hF; omega⟩
+    have hs0 : SeesT env s ((k, v) :: (q ++ rest)) := by simpa using hs
+    obtain ⟨s1, h1, hs1, hi1, _⟩ := peekType_spec s _ hs0
+    obtain ⟨s2, h2, hs2, _, hi2, _⟩ := advance_spec s1 k v _ hs1
+    have hset : inSet (some k) typeQualifier = true := mem_inSet (hq (k, v) List.mem_cons_self)
+    obtain ⟨s3, h3, hs3, hi3⟩ := scanQuals_loop q s2 rest G (fun t ht => hq t (List.mem_cons_of_mem _ ht)) hrest hs2
+      (by simp at hF ⊢; omega)
+    refine ⟨s3, ?_, hs3, by simp; omega⟩
+    show pScanQuals (run G) s = _
+    simp [pScanQuals, DeclSkel.bnd, h1, hset, h2, h3, DeclSkel.pur]
+
+/-- `while self._accept("TIMES")` of the scan -/
+theorem scanStars_loop : ∀ (stars : List (List Tk)) (s : PState) (rest : List Tk) (F : Nat),
+    (∀ q ∈ stars, ∀ t ∈ q, t.1 ∈ typeQualifier) →
+    (∀ k v r, rest = (k, v) :: r → k ≠ "TIMES" ∧ k ∉ typeQualifier) →
+    SeesT env s (starsFlat stars ++ rest) → starsNtoks stars + 2 ≤ F →
+    ∃ s', run F .scanStars s = .ok () s' ∧ SeesT env s' rest ∧ s'.idx = s.idx + starsNtoks stars
+  | [], s, rest, F, _, hrest, hs, hF => by
+    obtain ⟨G, rfl⟩ : ∃ G, F = G + 1 := ⟨F - 1, by omega⟩
+    have hs0 : SeesT env s rest := by simpa [starsFlat] using hs
+    obtain ⟨s1, h1, hs1, hi1⟩ := accept_other s rest "TIMES" hs0 (fun k v r h => (hrest k v r h).1)
+    refine ⟨s1, ?_, hs1, by simpa [starsNtoks] using hi1⟩
+    show pScanStars (run G) s = _
+    simp [pScanStars, DeclSkel.bnd, h1, DeclSkel.pur]
+  | q :: r, s, rest, F, hq, hrest, hs, hF => by
+    obtain ⟨G, rfl⟩ : ∃ G, F = G + 1 := ⟨F - 1, by omega⟩
+    simp only [starsNtoks] at hF
+    have hs0 : SeesT env s (("TIMES", "*") :: (q ++ (starsFlat r ++ rest))) := by
+      simpa [starsFlat, List.append_assoc] using hs
+    obtain ⟨s1, h1, hs1, hi1, _⟩ := accept_same s "TIMES" "*" _ hs0
+    have hnext : ∀ k v r', starsFlat r ++ rest = (k, v) :: r' → k ∉ typeQualifier := by
+      intro k v r' h
+      cases r with
+      | nil => exact (hrest k v r' (by simpa [starsFlat] using h)).2
+      | cons q' r'' =>
+        simp only [starsFlat, List.cons_append, List.cons.injEq, Prod.mk.injEq] at h
+        rw [← h.1.1]; decide
+    obtain ⟨s2, h2, hs2, hi2⟩ := scanQuals_loop q s1 _ G (hq q List.mem_cons_self) hnext hs1 (by omega)
+    obtain ⟨s3, h3, hs3, hi3⟩ := scanStars_loop r s2 rest G (fun q' hq' => hq q' (List.mem_cons_of_mem _ hq')) hrest hs2 (by omega)
+    refine ⟨s3, ?_, hs3, by simp only [starsNtoks]; omega⟩
+    show pScanStars (run G) s = _
+    simp [pScanStars, DeclSkel.bnd, h1, h2, h3, DeclSkel.pur]
+
+/-- **`_parse_any_declarator`** on a named declarator without grouping parentheses: the look-ahead
+scan finds the identifier, `_reset(mark)` goes back to the first token, and the declarator comes
+back as `parse_declarator` says -/
+theorem anyDeclarator_ok (d : D) (hwf : WFD d) (hn : NoParen d) (s : PState) (rest : List Tk)
+    (hs : SeesT env s (d.flat ++ rest)) (hfo : FollowD rest) (F : Nat) (hF : d.fuel + starsNtoks (dStars d) + 5 ≤ F) :
+    ∃ s', run F (.anyDeclarator false false) s = .ok (chainVal (d.chain s.idx) (d.td s.idx), true) s' ∧
+      SeesT env s' rest ∧ s'.idx = s.idx + d.ntoks := by
+  obtain ⟨G, rfl⟩ : ∃ G, F = G + 2 := ⟨F - 2, by omega⟩
+  have hflat := flat_noParen hwf hn
+  have hs0 : SeesT env s (starsFlat (dStars d) ++ (("ID", dName d) :: (dPost d ++ rest))) := by
+    rw [hflat] at hs; simpa [List.append_assoc] using hs
+  -- the scan
+  obtain ⟨s1, h1, hs1, hi1⟩ := scanStars_loop (dStars d) s _ G (dStars_quals hwf)
+    (by intro k v r h; simp only [List.cons.injEq, Prod.mk.injEq] at h; rw [← h.1.1]; exact ⟨by decide, by decide⟩) hs0 (by omega)
+  obtain ⟨s2, h2, hs2, _, hi2, _⟩ := peek_spec s1 "ID" (dName d) _ hs1
+  obtain ⟨s3, h3, hs3, _, hi3, _⟩ := advance_spec s2 "ID" (dName d) _ hs2
+  have hscan : run (G + 1) .scanDeclaratorNameInfo s = .ok (some "ID", false) s3 := by
+    show pScanDeclaratorNameInfo (run G) s = _
+    simp [pScanDeclaratorNameInfo, DeclSkel.bnd, h1, h2, h3, DeclSkel.pur]
+  -- back to the mark
+  obtain ⟨s4, h4, hs4, hi4⟩ := reset_to s s3 _ _ hs hs3 (by omega)
+  obtain ⟨s5, h5, hs5, hi5⟩ := parse_declarator d hwf s4 rest hs4 hfo (G + 1) (by omega)
+  refine ⟨s5, ?_, hs5, by omega⟩
+  rw [hi4] at h5
+  show pAnyDeclarator (run (G + 1)) false false s = _
+  simp [pAnyDeclarator, DeclSkel.bnd, mark, hscan, h4, h5, DeclSkel.pur]
+
+/-! ## init-declarators -/
+
+/-- the coordinate of the name-carrying `TypeDecl` -/
+def dTco : Nat → D → Option Coord
+  | n, .name _ => tc n
+  | n, .paren d => dTco (n + 1) d
+  | n, .ptr stars d => dTco (n + starsNtoks stars) d
+  | n, .arr d _ => dTco n d
+  | n, .fn0 d => dTco n d
+
+theorem td_eq : ∀ (d : D) (n : Nat), d.td n = tdRaw (dName d) (dTco n d)
+  | .name _, _ => rfl
+  | .paren d, n => td_eq d (n + 1)
+  | .ptr stars d, n => td_eq d (n + starsNtoks stars)
+  | .arr d _, n => td_eq d n
+  | .fn0 d, n => td_eq d n
+
+/-- one init-declarator: a declarator and an optional `= assignment-expression` -/
+structure IDc where
+  d : D
+  init : Option X
+
+def IDc.ntoks (it : IDc) : Nat := it.d.ntoks + (match it.init with | none => 0 | some e => 1 + e.ntoks)
+def IDc.flat (it : IDc) : List Tk :=
+  it.d.flat ++ (match it.init with | none => [] | some e => ("EQUALS", "=") :: e.flat)
+def IDc.fuel (it : IDc) : Nat := it.d.fuel + starsNtoks (dStars it.d) + ofuel it.init + 8
+
+structure WFI (it : IDc) : Prop where
+  wfd : WFD it.d
+  noParen : NoParen it.d
+  wfx : ∀ e, it.init = some e → WFX 1 e
+
+/-- the `_DeclInfo` the parser builds for it (`n`: position of its first token) -/
+def IDc.di (n : Nat) (it : IDc) : DI :=
+  { ms := it.d.chain n, x := dName it.d, tco := dTco n it.d,
+    init := match it.init with | none => .none | some e => e.val (n + it.d.ntoks + 1) }
+
+theorem IDc.flat_length (it : IDc) : it.flat.length = it.ntoks := by
+  cases hi : it.init with
+  | none => simp [IDc.flat, IDc.ntoks, hi, DeclSkel.flat_length]
+  | some e => simp [IDc.flat, IDc.ntoks, hi, DeclSkel.flat_length, FullExpr.flat_length]; omega
+
+theorem stopA_comma : StopA "COMMA" := ⟨⟨⟨by decide, by decide⟩, by decide⟩, by decide⟩
+theorem stopA_semi : StopA "SEMI" := ⟨⟨⟨by decide, by decide⟩, by decide⟩, by decide⟩
+
+/-- the token that ends an init-declarator -/
+def EndsItem (k : String) : Prop := k = "COMMA" ∨ k = "SEMI"
+
+theorem EndsItem.stopA {k : String} (h : EndsItem k) : StopA k := by
+  rcases h with rfl | rfl
+  · exact stopA_comma
+  · exact stopA_semi
+
+/-- **`_parse_init_declarator`** -/
+theorem initDeclarator_ok (it : IDc) (hwf : WFI it) (s : PState) (stop : Tk) (rest : List Tk) (hstop : EndsItem stop.1)
+    (hs : SeesT env s (it.flat ++ stop :: rest)) (F : Nat) (hF : it.fuel ≤ F) :
+    ∃ s', run F (.initDeclarator false) s = .ok (it.di s.idx).info s' ∧ SeesT env s' (stop :: rest) ∧
+      s'.idx = s.idx + it.ntoks := by
+  obtain ⟨G, rfl⟩ : ∃ G, F = G + 1 := ⟨F - 1, by simp only [IDc.fuel] at hF; omega⟩
+  simp only [IDc.fuel] at hF
+  obtain ⟨k0, v0⟩ := stop
+  cases hi : it.init with
+  | none =>
+    have hs0 : SeesT env s (it.d.flat ++ (k0, v0) :: rest) := by simpa [IDc.flat, hi] using hs
+    obtain ⟨s1, h1, hs1, hi1⟩ := anyDeclarator_ok it.d hwf.wfd hwf.noParen s _ hs0
+      (by intro k v r h; simp only [List.cons.injEq, Prod.mk.injEq] at h
+          rcases hstop with h' | h' <;> simp only at h' <;> rw [← h.1.1, h'] <;> exact ⟨by decide, by decide⟩) G (by simp [ofuel, hi] at hF; omega)
+    obtain ⟨s2, h2, hs2, hi2⟩ := accept_other s1 _ "EQUALS" hs1 (by
+      intro k v r h; simp only [List.cons.injEq, Prod.mk.injEq] at h
+      rcases hstop with h' | h' <;> simp only at h' <;> rw [← h.1.1, h'] <;> decide)
+    refine ⟨s2, ?_, hs2, by simp only [IDc.ntoks, hi]; omega⟩
+    have hnn : (chainVal (it.d.chain s.idx) (it.d.td s.idx)).isNone = false := by
+      have := DeclSkel.val_isNode it.d s.idx
+      simp only [D.val] at this
+      cases h : chainVal (it.d.chain s.idx) (it.d.td s.idx) <;> simp_all [Val.isNode, Val.isNone]
+    show pInitDeclarator (run G) false s = _
+    simp only [pInitDeclarator, DeclSkel.bnd, h1, hnn, Bool.false_eq_true, ↓reduceIte, DeclSkel.pur, h2, Option.isSome_none]
+    simp [IDc.di, DI.info, DI.raw, hi, td_eq]
+  | some e =>
+    have hwe := hwf.wfx e hi
+    have hs0 : SeesT env s (it.d.flat ++ ("EQUALS", "=") :: (e.flat ++ (k0, v0) :: rest)) := by
+      simpa [IDc.flat, hi, List.append_assoc] using hs
+    obtain ⟨s1, h1, hs1, hi1⟩ := anyDeclarator_ok it.d hwf.wfd hwf.noParen s _ hs0
+      (by intro k v r h; simp only [List.cons.injEq, Prod.mk.injEq] at h; rw [← h.1.1]; exact ⟨by decide, by decide⟩) G
+      (by simp [ofuel, hi] at hF; omega)
+    obtain ⟨s2, h2, hs2, hi2, _⟩ := accept_same s1 "EQUALS" "=" _ hs1
+    -- the initializer is an assignment expression (its first token is not `{`)
+    obtain ⟨t, r, hfl, hth, _⟩ := flat_heads hwe
+    have hnb : t.1 ≠ "LBRACE" := by intro h; rw [h] at hth; revert hth; decide
+    have hs2' : SeesT env s2 ((t.1, t.2) :: (r ++ (k0, v0) :: rest)) := by simpa [hfl] using hs2
+    obtain ⟨s3, h3, hs3, hi3⟩ := accept_other s2 _ "LBRACE" hs2' (by
+      intro k v r' h; simp only [List.cons.injEq, Prod.mk.injEq] at h; rw [← h.1.1]; exact hnb)
+    have hs3' : SeesT env s3 (e.flat ++ (k0, v0) :: rest) := by simpa [hfl] using hs3
+    obtain ⟨G', rfl⟩ : ∃ G', G = G' + 1 := ⟨G - 1, by simp [ofuel, hi] at hF; have := FullExpr.fuel_ge e; omega⟩
+    obtain ⟨s4, h4, hs4, hi4⟩ := (all_ok e).a hwe s3 (k0, v0) rest hstop.stopA hs3' G' (by simp [ofuel, hi] at hF; omega)
+    refine ⟨s4, ?_, hs4, by simp only [IDc.ntoks, hi]; omega⟩
+    have hnn : (chainVal (it.d.chain s.idx) (it.d.td s.idx)).isNone = false := by
+      have := DeclSkel.val_isNode it.d s.idx
+      simp only [D.val] at this
+      cases h : chainVal (it.d.chain s.idx) (it.d.td s.idx) <;> simp_all [Val.isNode, Val.isNone]
+    have e3 : s3.idx = s.idx + it.d.ntoks + 1 := by omega
+    rw [e3] at h4
+    have h4' : run G' .assignmentExpression s3 = .ok (e.val (s.idx + it.d.ntoks + 1)) s4 := by simpa using h4
+    have hinit : run (G' + 1) .initializer s2 = .ok (e.val (s.idx + it.d.ntoks + 1)) s4 := by
+      show pInitializer (run G') s2 = _
+      simp [pInitializer, DeclSkel.bnd, h3, h4']
+    show pInitDeclarator (run (G' + 1)) false s = _
+    simp only [pInitDeclarator, DeclSkel.bnd, h1, hnn, Bool.false_eq_true, ↓reduceIte, DeclSkel.pur, h2, Option.isSome_some, hinit]
+    simp [IDc.di, DI.info, DI.raw, hi, td_eq]
+
 end PycModel.DeclParse
